@@ -457,9 +457,20 @@ func NewPointer(elemType Type) *PointerType {
 
 // Equal reports whether t and u are of equal type.
 func (t *PointerType) Equal(u Type) bool {
-	// HACK: to prevent infinite loops (e.g. struct foo containing field of type
-	// pointer to foo).
-	return t.String() == u.String()
+	if u, ok := u.(*PointerType); ok {
+		if t == u {
+			return true
+		}
+		if t.ElemType == nil || u.ElemType == nil {
+			// Pointer type without body (under construction).
+			return false
+		}
+		// The comparison terminates on recursive types (e.g. struct foo
+		// containing field of type pointer to foo), since identified struct
+		// types are compared by name.
+		return t.AddrSpace == u.AddrSpace && t.ElemType.Equal(u.ElemType)
+	}
+	return false
 }
 
 // String returns the string representation of the pointer type.
